@@ -6,7 +6,7 @@ MODULES = {
     "C18": ["contracts.types_named"],
     "C04": ["contracts.externals", "contracts.ash"],
     "C05": ["contracts.externals", "contracts.ash"],
-    "C01": ["contracts.externals", "contracts.ash"],
+    "C01": ["contracts.externals", "contracts.ash", "contracts.ash_wire"],
     "C03": ["contracts.externals", "contracts.ash", "contracts.ash_wire"],
 }
 
